@@ -173,6 +173,7 @@ type c10LiveWorld struct {
 	// replication.Runtime, leader appends go through the durable quorum log,
 	// followers persist proposals through their exchange server).
 	mode  string
+	net   *c10Net
 	rts   map[ch.NodeID]*replication.Runtime
 	nodes map[ch.NodeID]ch.Cluster
 	facts map[ch.NodeID]*c10Factory
@@ -187,11 +188,12 @@ func c10NewLiveWorld(mode string) (*c10LiveWorld, error) {
 	w := &c10LiveWorld{mode: mode, rts: map[ch.NodeID]*replication.Runtime{}, nodes: map[ch.NodeID]ch.Cluster{}, facts: map[ch.NodeID]*c10Factory{}, svcs: map[ch.NodeID]*channels.Service{},
 		src: c10NewMetaSource(), stop: make(chan struct{})}
 	network := channeltransport.NewLocalNetwork()
+	w.net = &c10Net{base: network.Client()}
 	router := &c10Router{servers: map[ch.NodeID]*replication.ExchangeServer{}}
 	for _, node := range []ch.NodeID{1, 2, 3} {
 		f := c10NewFactory(node, store.NewMemoryFactory())
 		w.facts[node] = f
-		cfg := service.Config{LocalNode: node, Store: f, ReactorCount: 1, Transport: network.Client(), MetaResolver: w.src,
+		cfg := service.Config{LocalNode: node, Store: f, ReactorCount: 1, Transport: w.net, MetaResolver: w.src,
 			ReplicationIdlePollInterval: 2 * time.Millisecond, ReplicationMaxBackoff: 10 * time.Millisecond, PullHintRetryInterval: 10 * time.Millisecond,
 			FollowerRecoveryProbeInterval: 20 * time.Millisecond, FollowerRecoveryProbeJitter: 5 * time.Millisecond}
 		if mode == "quorum" {
@@ -310,6 +312,7 @@ func c10NewLive(r *verifkit.Run, rng *rand.Rand, caseIdx int, w *c10LiveWorld) (
 	for _, node := range []ch.NodeID{1, 2, 3} {
 		l.hub.attach(w.facts[node])
 	}
+	w.net.hub.Store(l.hub)
 	l.src.set(l.meta)
 	l.svc = w.svcs[leader]
 	for _, node := range []ch.NodeID{1, 2, 3} {
@@ -325,6 +328,7 @@ func c10NewLive(r *verifkit.Run, rng *rand.Rand, caseIdx int, w *c10LiveWorld) (
 // close ends the case: releases held applies, cancels in-flight appends and
 // unloads the case's channel from the three runtimes.
 func (l *c10Live) close() {
+	l.hub.releaseAcks()
 	for _, f := range l.facts {
 		f.setPaused(false)
 	}
@@ -646,9 +650,24 @@ func (l *c10Live) stepRetention() {
 		l.sawRegress = true
 		l.r.Count("live.apply_retention_backward", 1)
 	}
+	if node == l.meta.Leader {
+		// Freeze the leader's follower-progress bookkeeping for the duration
+		// of the call: new offset-carrying pulls/acks are held (a network
+		// delay), the ones in flight are given time to return.
+		l.hub.freezeAcks(func() bool {
+			for deadline := time.Now().Add(5 * time.Second); time.Now().Before(deadline); time.Sleep(200 * time.Microsecond) {
+				if !l.hub.acksInflight() {
+					return true
+				}
+			}
+			l.r.Count("live.note.acks_still_in_flight_at_leader_retention", 1)
+			return false
+		})
+	}
 	ctx, cancel := context.WithTimeout(l.ctx, c10LiveOpTimeout)
 	res, err := rt.ApplyRetentionBoundary(ctx, ch.RetentionApplyRequest{ChannelID: l.meta.ID, ThroughSeq: through, Options: opts})
 	cancel()
+	l.hub.releaseAcks()
 	role := "follower"
 	if node == l.meta.Leader {
 		role = "leader"
